@@ -68,6 +68,10 @@ func C01(c *core.Ctx) {
 			})
 		}
 	}
+	// identifier-coincidence families: duplicate field / type names are a C01 matter too
+	for _, mb := range collisionMembers() {
+		runCollisionMember(c, mb, ruleSet("A-TYP"), 4096)
+	}
 	c.Floor("families", c.Counts["members"], 1000, "family members × option sets")
 	// B-ERR instance: format.Source in Sources
 	a := engb.New(c.Prog)
